@@ -37,9 +37,14 @@ RULE = ("cases come from random.Random(VERIF_SEED). runs: count tensors of order
         "(validation); distinct = distinct case hash")
 ASSUMPTIONS = [
     "IEEE rounding is not modelled: the model is executed at Float with its own summation order; whole runs of "
-    "<= 3 outer iterations are compared to relative 1e-9 (absolute 1e-12), single steps likewise; every "
-    "comparison of the algorithms (KKT < stoptol, Armijo test, descent test) is assumed not to be an exact tie "
-    "between the two summation orders",
+    "<= 3 outer iterations are compared to relative 1e-9 (absolute 1e-12; KKT values, which are cancelled "
+    "differences, additionally to absolute 1e-7), single steps likewise, decision fields (iterations, "
+    "nInnerIters, nViolations) exactly. A Newton-variant run in which some line search made a comparison at "
+    "rounding level (relative margin < 1e-9, recomputed from the recorded call with the implementation's own "
+    "row objective) -- or which agrees with the model only to 1e-5 with identical decision fields -- is instead "
+    "validated one line search at a time, each from the implementation's own recorded state (tags "
+    "rounding-tie / amplified-rounding); the implementation itself changes its answer by up to 1e-5 under a "
+    "1-ulp change of the guess in such runs",
     "the search direction of PDNR / PQNR (get_search_dir_pdnr with its damping parameter, the L-BFGS bookkeeping "
     "and get_search_dir_pqnr) is a service: the theorems hold for every vector, the harness feeds the model the "
     "vectors the implementation used",
@@ -486,7 +491,7 @@ class Runs(Family):
                 "C11_returned_model_denote", "C11_likelihood_not_worse_partial")
 
     def gen(self, rng, tier):
-        n = 160 if tier == "quick" else 1500
+        n = 240 if tier == "quick" else 3000
         out = []
         for k in range(n):
             data, tags = gen_data(rng, tier)
@@ -638,7 +643,7 @@ class Steps(Family):
                 "C11_sum_all_eq_sum_factor0", "C11_initial_normalize_denote")
 
     def gen(self, rng, tier):
-        n = 240 if tier == "quick" else 2000
+        n = 320 if tier == "quick" else 3000
         kinds = ["mu_mode", "mu_mode", "ktensor", "ktensor", "row", "linesearch", "linesearch", "project", "loglik",
                  "loglik"]
         out = []
@@ -811,7 +816,7 @@ class Validation(Family):
     theorems = ("C11_rejects_invalid", "C11_rejects_negative_data", "C11_rejects_negative_guess")
 
     def gen(self, rng, tier):
-        n = 96 if tier == "quick" else 480
+        n = 112 if tier == "quick" else 640
         out = []
         muts = ["valid", "valid", "valid", "neg-data", "rank0", "rank-mismatch", "ndims-mismatch", "size-mismatch",
                 "neg-entry", "neg-weight", "one-way-dense", "one-way-sparse", "empty-sparse", "maxiters0",
